@@ -12,6 +12,41 @@ from checks import _layoutcommon as lc
 from harness import checklib
 
 
+def attitude_year(case):
+    """the attitude points count from 1 January of the year of the FIRST STATE VECTOR (documented conversion): leaders whose scene centre
+    lies in another year than the first state vector (orbit data starting minutes before a scene on 1 January, or ending after one on 31
+    December).  The day convention itself belongs to C17 (its known finding is an offset of exactly one day): here only the YEAR is judged."""
+    import datetime as dt
+
+    import numpy as np
+
+    import ceos_alos2
+
+    from harness import imgrun, product
+
+    y, mo, d = case["first"]
+    ctx = dict(pp_date=f"{y:4d}{mo:4d}{d:4d}", pp_doy=(dt.date(y, mo, d) - dt.date(y, 1, 1)).days + 1, pp_sod=case["sod"], scene_center_time=case["centre"],
+               att_doy=case["att_doy"], att_ms=case["att_ms"])
+    b = product.build_product(level=case["level"], images=(("HH", None, 2, 2),), seed=case["seed"], ctx=ctx, leader=dict(np=3))
+    url = imgrun.put_on_fs(b, "local", f"c04y_{case['seed']}")
+    out = {"case": case, "bad": []}
+    try:
+        tree = ceos_alos2.open_alos2(url, backend_options=dict(use_cache=False))
+        for g in ("attitude", "rates"):
+            t = np.asarray(tree[f"metadata/attitude/{g}"]["time"].values).astype("datetime64[ms]")
+            want = np.datetime64(f"{y:04d}-01-01", "ms") + np.timedelta64(case["att_doy"] - 1, "D") + np.timedelta64(case["att_ms"], "ms")
+            for v in t:
+                if v not in (want, want + np.timedelta64(1, "D")):
+                    out["bad"].append((f"attitude-year:{g}", f"/metadata/attitude/{g}/time = {v}: day {case['att_doy']} of the year of the first state vector ({y}) is {want} "
+                                       f"(first point {case['first']} {case['sod']} s, scene centre {case['centre']})"))
+                    break
+    except BaseException as e:  # noqa: B902
+        out["bad"].append(("attitude-year:open", f"{type(e).__name__}: {str(e)[:150]}"))
+    finally:
+        imgrun.drop_from_fs(url, "local")
+    return out
+
+
 def body(chk):
     from harness import plans
 
@@ -55,6 +90,19 @@ def body(chk):
     chk.assumptions += ["Layout.tla / OutMap.tla are frozen transcriptions (change detectors anchored on the CEOS record sizes); "
                         "Python's float()/int() text parsing is trusted for the digits themselves",
                         "a scaled field may equal the exactly scaled rational (4 ulp) or the double product/quotient with the factor"]
+    ycases = []
+    for j, (first, sod, centre, adoy, ams) in enumerate([
+            ((2015, 12, 31), "85920.000000000000000", "20160101000300000", 365, 85980000),   # orbit data start 8 min before a scene on 1 January
+            ((2016, 12, 31), "86340.000000000000000", "20170101000030500", 366, 86399000),   # ... leap year
+            ((2019, 1, 1), "60.000000000000000", "20181231235950000", 1, 120000),             # scene centre still in the old year
+            ((2020, 6, 15), "43200.000000000000000", "20200615120700000", 167, 43260000)]):   # control: one year
+        for level in ("1.5", "1.1"):
+            ycases.append(dict(first=first, sod=sod, centre=centre, att_doy=adoy, att_ms=ams, level=level, seed=chk.seed + 700 + j))
+    lc.prepare_layouts([dict(level=lv, images=(("HH", None, 2, 2),), leader=dict(np=3)) for lv in ("1.5", "1.1")])
+    for res in checklib.pmap(attitude_year, ycases, chk.scratch):
+        chk.count(2, f"attitude-year:{res['case']['first']}:{res['case']['level']}")
+        for key, msg in res["bad"][:1]:
+            chk.violation(f"leader:{key}", msg, {"case": res["case"]})
     from harness import sessioncheck
 
     sessioncheck.standard(chk)
